@@ -1,4 +1,4 @@
-CONSTANTS Families = {"one", "rsv"}  Bug = "RejectMovesCursor"  Emit = FALSE
+CONSTANTS Families = {"mini"}  Bug = "RejectMovesCursor"  Emit = FALSE
   TwoFlags = {}
   TwoSizes = {}
   ThreeSizes = {}
